@@ -149,6 +149,27 @@ func redactNamespace(cmd *orderedmap.OrderedMap[string, any]) {
 	}
 }
 
+// redactNamespaceValue pseudonymises a namespace-typed operator argument: a collection
+// name, or the document form {db: ..., coll: ...} accepted by $merge.into / $out.
+func redactNamespaceValue(v any) any {
+	switch vTyped := v.(type) {
+	case string:
+		return HashName(vTyped)
+	case *orderedmap.OrderedMap[string, any]:
+		out := orderedmap.NewOrderedMap[string, any]()
+		for el := vTyped.Front(); el != nil; el = el.Next() {
+			if name, ok := el.Value.(string); ok && (el.Key == "db" || el.Key == "coll") {
+				out.Set(el.Key, HashName(name))
+			} else {
+				out.Set(el.Key, el.Value)
+			}
+		}
+		return out
+	default:
+		return v
+	}
+}
+
 func redactCommand(cmd *orderedmap.OrderedMap[string, any], shouldEagerRedact bool) {
 	if cmd == nil {
 		return
@@ -382,12 +403,7 @@ func redactPipelineStage(stage interface{}, redactFieldNames bool, keyPath []str
 					continue
 				case Namespace:
 					if redactNamespaces {
-						switch vTyped := v.(type) {
-						case string:
-							newMap.Set(redactedKey, HashName(vTyped))
-						default:
-							newMap.Set(redactedKey, v)
-						}
+						newMap.Set(redactedKey, redactNamespaceValue(v))
 					} else {
 						newMap.Set(redactedKey, v)
 					}
@@ -472,12 +488,7 @@ func redactPipelineStage(stage interface{}, redactFieldNames bool, keyPath []str
 									continue
 								case Namespace:
 									if redactNamespaces {
-										switch subVTyped := subV.(type) {
-										case string:
-											newSubMap.Set(subK, HashName(subVTyped))
-										default:
-											newSubMap.Set(subK, subV)
-										}
+										newSubMap.Set(subK, redactNamespaceValue(subV))
 									} else {
 										newSubMap.Set(subK, subV)
 									}
